@@ -14,11 +14,20 @@ RULE = ("TLC enumerates the read/variant geometry space (Gen_C06: variant kind x
         "- starts/ends inside the variant included -, decoration in {plain, soft clip, hard clip, =/X CIGAR, unrelated indel 20 bp away, "
         "N skip beside the variant, N skip over the variant, mate pair, overlapping mate pair}); a scenario is one (kind, length) world with a batch of such reads in one BAM, read "
         "with and without reference through ReadSetReader.read; plus a second variant of random kind 25 bp away; non-trivial = the batch "
-        "contains reads that fully cover the variant and reads that only partially overlap it")
+        "contains reads that fully cover the variant and reads that only partially overlap it. "
+        "Call HISTORIES (seeded random): one ReadSetReader object answers 5-8 consecutive read() calls for different 2-4 element subsets "
+        "(mostly the same length) of 8 variants of random kinds 30 bp apart, two haplotypes, reads with random extents (single, soft-clipped, "
+        "mate pairs); every call's variant list is a short-lived freshly built list (dropped after the call, also one that lives at the address "
+        "of a predecessor that was freed), a long-lived list whose elements were replaced in place, the same list again or a new kept list, "
+        "with or without reference in any order; every call is judged by the same clauses plus OnlyRequested (alleles only at positions "
+        "the call asked for); non-trivial = a reference-free call with a different list at a re-used address found alleles")
 ASSUMPTIONS = [
     "reads are exact substrings of the haplotype sequence, aligned with the canonical CIGAR modelled (and model-checked) in SeqWorld.tla",
     "reference contexts are seeded random homopolymer-free sequences (all indels unshiftable); TLC enumerates structure, not 4^n strings",
     "AlwaysFound is demanded only when every alignment touching the variant has at least one aligned base on each side of it",
+    "call histories: the result of read() depends only on the arguments of that call, never on earlier calls on the same reader "
+    "or on the identity / life time of the variant list object; variants the haplotype carries but the call did not ask for are "
+    ">= 25 bp away from every requested one (outside the re-alignment window)",
 ]
 OVERHANG = 10
 P = 50
@@ -55,6 +64,9 @@ def scenarios(ctx):
     for shape in MULTI_SHAPES:
         for rep in range(2 if q else 10):
             scs.append({"kind": 5, "len": 0, "multi": shape, "geos": [], "seed": ctx.rng.randrange(10 ** 6)})
+    # call HISTORIES on one reader object: several consecutive read() calls with different variant lists
+    for rep in range(16 if q else 96):
+        scs.append({"kind": 6, "len": 0, "history": True, "geos": [], "seed": ctx.rng.randrange(10 ** 6)})
     return scs
 
 
@@ -310,7 +322,175 @@ def _drive_nearins(sc):
         shutil.rmtree(d, ignore_errors=True)
 
 
+def _short_lived_list(items, want_id):
+    """A freshly built list object with the given items.  CPython hands the memory of a list that has just been freed to one of
+    the next lists that are created; if want_id is given, make sure (bounded effort) that this perfectly legal situation occurs:
+    the new list lives at the address want_id of an earlier list that is no longer alive."""
+    keep = {}
+    lst = [*items]
+    while want_id is not None and id(lst) != want_id and len(keep) < 4000:
+        keep[len(keep)] = lst
+        lst = [*items]
+    return lst
+
+
+HIST_MODES = ["fresh", "fresh", "recycled", "recycled", "inplace", "inplace", "same", "keep"]
+
+
+def _drive_history(sc):
+    """ONE ReadSetReader object is asked several times in a row for different variant lists of the same chromosome (mostly of
+    the same length): short-lived lists built for the call and dropped afterwards (also at the address of their predecessor),
+    one long-lived list whose elements are replaced in place, the same list again, with and without a reference in any
+    order.  The world has 8 variants of random kinds 30 bp apart and two haplotypes; reads are error-free copies with random
+    extents (single, soft-clipped, mate pairs).  EVERY call's result is judged like a single call's."""
+    from .. import world as W
+    from ..phaseworld import workdir
+    from whatshap.variants import ReadSetReader
+    from whatshap.core import NumericSampleIds
+    from whatshap.vcf import BiallelicVcfVariant
+    rng = random.Random(sc["seed"])
+    KN = {"snv": 1, "ins": 2, "del": 3, "mnp": 4}
+    while True:
+        ref = W.random_reference(rng, 400)
+        uni, ok = [], True
+        for pos in range(60, 300, 30):
+            kind = rng.choice(["snv", "snv", "ins", "del", "mnp"])
+            ln = 1 if kind == "snv" else rng.randint(2, 3) if kind == "mnp" else rng.randint(1, 3)
+            if kind == "del" and not W.deletion_unshiftable(ref, pos, ln):
+                ok = False
+                break
+            uni.append(W.make_variant(rng, ref, pos, kind, ln))
+        if ok:
+            break
+    nv = len(uni)
+    hapbits = []
+    a_bits = [rng.randint(0, 1) for _ in range(nv)]
+    hapbits.append(a_bits)
+    hapbits.append([1 - b if rng.random() < 0.8 else b for b in a_bits])
+    haps = [W.Haplotype(ref, uni, bits) for bits in hapbits]
+    reads, meta = [], {}
+
+    def seg(h, rs, re_, clip=0):
+        hp = haps[h]
+        hs, he = hp.ref_to_hap(rs), hp.ref_to_hap(re_)
+        if not (0 <= hs < he <= len(hp.seq)):
+            return None
+        r = hp.read(hs, he)
+        if r is None:
+            return None
+        pos0, ops, seq = r
+        ops = list(ops)
+        if clip:
+            junk = "".join(rng.choice("ACGT") for _ in range(clip))
+            if ops[0][0] == "S":
+                ops[0] = ("S", ops[0][1] + clip)
+            else:
+                ops.insert(0, ("S", clip))
+            seq = junk + seq
+        return pos0, ops, seq
+
+    n = 0
+    for h in (0, 1):
+        shapes = [("single", 30, 330), ("single", 31 + h, 329)]
+        for _ in range(4):
+            s_ = rng.randint(20, 260)
+            shapes.append(("single", s_, min(395, s_ + rng.randint(40, 200))))
+        for _ in range(2):
+            s_ = rng.randint(40, 200)
+            shapes.append(("clip", s_, min(395, s_ + rng.randint(60, 180))))
+        for _ in range(2):
+            s_ = rng.randint(20, 120)
+            e_ = s_ + rng.randint(40, 90)
+            s2 = e_ + rng.randint(10, 80)
+            shapes.append(("pair", s_, e_, s2, min(395, s2 + rng.randint(40, 90))))
+        for shp in shapes:
+            name = f"h{n:03d}"
+            n += 1
+            a1 = seg(h, shp[1], shp[2], clip=rng.randint(1, 7) if shp[0] == "clip" else 0)
+            if a1 is None:
+                continue
+            aln = [{"name": name, "flag": 0, "ref": 0, "pos": a1[0], "cigar": W.cigar_str(a1[1]), "seq": a1[2], "rg": "rg1"}]
+            b1, e1 = _blocks(a1[0], a1[1])
+            segs = [{"rs": a1[0], "re": e1, "cig": [[OPC[o], m] for o, m in a1[1]], "qlen": len(a1[2]), "blocks": b1}]
+            if shp[0] == "pair":
+                a2 = seg(h, shp[3], shp[4])
+                if a2 is not None and a2[0] >= e1:
+                    aln[0]["flag"] = 1 | 2 | 64 | 32
+                    aln[0]["mate"] = {"ref": 0, "pos": a2[0]}
+                    aln.append({"name": name, "flag": 1 | 2 | 128 | 16, "ref": 0, "pos": a2[0], "cigar": W.cigar_str(a2[1]), "seq": a2[2],
+                                "rg": "rg1", "mate": {"ref": 0, "pos": a1[0]}})
+                    b2, e2 = _blocks(a2[0], a2[1])
+                    segs.append({"rs": a2[0], "re": e2, "cig": [[OPC[o], m] for o, m in a2[1]], "qlen": len(a2[2]), "blocks": b2})
+            reads.extend(aln)
+            meta[name] = {"segs": segs, "hap": h, "shape": shp[0]}
+    # the history of calls
+    k0 = rng.randint(2, 4)
+    calls = []
+    for ci in range(rng.randint(5, 8)):
+        k = k0 if rng.random() < 0.85 else rng.randint(2, 4)
+        calls.append({"idx": sorted(rng.sample(range(nv), k)), "withref": rng.random() < 0.3, "mode": rng.choice(HIST_MODES)})
+
+    def mk(j):
+        return BiallelicVcfVariant(uni[j].pos, uni[j].ref, uni[j].alt)
+
+    d = workdir()
+    try:
+        bam = W.write_bam(os.path.join(d, "r.bam"), [("chr1", len(ref))], reads, [{"ID": "rg1", "SM": "s1"}])
+        rdr = ReadSetReader([bam], reference=None, numeric_sample_ids=NumericSampleIds())
+        results = {}          # call number -> (requested universe indices, name -> {position: allele}, list id, mode really used)
+        cur, cur_idx = None, None     # the long-lived list and what it holds
+        dead_id = None                # address of the most recent short-lived list (no longer alive)
+        for ci, c in enumerate(calls):
+            refarg = ref if c["withref"] else None
+            mode, idx = c["mode"], c["idx"]
+            if mode == "same" and cur is not None:
+                idx = cur_idx
+                lid = id(cur)
+                rs = rdr.read("chr1", cur, "s1", refarg)
+            elif mode == "inplace" and cur is not None and len(cur) == len(idx):
+                for j, u in enumerate(idx):
+                    cur[j] = mk(u)
+                cur_idx = idx
+                lid = id(cur)
+                rs = rdr.read("chr1", cur, "s1", refarg)
+            elif mode in ("keep", "same", "inplace"):
+                mode = "keep"
+                cur, cur_idx = [mk(u) for u in idx], idx
+                lid = id(cur)
+                rs = rdr.read("chr1", cur, "s1", refarg)
+            else:
+                lst = _short_lived_list(tuple(mk(u) for u in idx), dead_id if mode == "recycled" else None)
+                lid = id(lst)
+                rs = rdr.read("chr1", lst, "s1", refarg)
+                del lst
+                dead_id = lid
+            results[ci] = (idx, {r.name: {v.position: v.allele for v in r} for r in rs}, lid, mode)
+            del rs
+        rdr.close()
+        evs = []
+        seen_ids = {}
+        for ci, c in enumerate(calls):
+            idx, got, lid, mode = results[ci]
+            reused = lid in seen_ids and seen_ids[lid] != idx       # a DIFFERENT variant list at the address of an earlier one
+            seen_ids[lid] = idx
+            req = [uni[u].pos for u in idx]
+            for name, m in meta.items():
+                det = got.get(name, {})
+                vs = [{"pos": uni[u].pos, "reflen": len(uni[u].ref), "altlen": len(uni[u].alt), "kind": KN[uni[u].kind],
+                       "truth": hapbits[m["hap"]][u], "det": int(det.get(uni[u].pos, -1)), "clean": True, "unshiftable": True}
+                      for u in idx]
+                evs.append({"ev": "Detect", "withref": c["withref"], "segs": m["segs"], "vars": vs, "deco": "history:" + m["shape"],
+                            "so": 0, "eo": 0, "call": ci, "mode": mode, "reused": bool(reused)})
+                evs.append({"ev": "Recorded", "req": req, "rec": sorted(det), "call": ci, "withref": c["withref"], "mode": mode,
+                            "reused": bool(reused)})
+        return evs
+    finally:
+        shutil.rmtree(d, ignore_errors=True)
+
+
 def drive(sc):
+    if sc.get("history"):
+        return _drive_history(sc)
     if sc.get("multi"):
         return _drive_multi(sc)
     if sc.get("nearins"):
@@ -437,6 +617,9 @@ def drive(sc):
 
 
 def nontrivial(sc, events):
+    if sc.get("history"):
+        # at least one reference-free call whose (different) variant list lives where an earlier call's list lived, with alleles found
+        return any(e.get("ev") == "Detect" and e["reused"] and not e["withref"] and any(v["det"] >= 0 for v in e["vars"]) for e in events)
     if sc.get("multi"):
         return any(e.get("ev") == "Detect" and e["vars"][0]["det"] >= 0 for e in events)
     full = part = False
@@ -463,6 +646,10 @@ def signature(sc, events, clause):
                     bad.add((KINDS[v["kind"]], "ref" if e["withref"] else "noref", "REF" if v["truth"] == 0 else "ALT"))
     if sc.get("multi"):
         return f"multi-allelic record shape={sc['multi']}"
+    if sc.get("history"):
+        modes = sorted({(e["mode"], "reused-address" if e["reused"] else "new-address") for e in events if e.get("ev") in ("Detect", "Recorded")
+                        and (any(p not in e["req"] for p in e["rec"]) if e["ev"] == "Recorded" else any(v["det"] != v["truth"] for v in e["vars"]))})
+        return f"call history on one reader: mismatching={sorted(bad)[:4]} modes={modes[:4]}"
     return f"kind={KINDS[sc['kind']]} len={sc['len']} mismatching={sorted(bad)[:4]}"
 
 
@@ -482,7 +669,9 @@ MANIFEST = {
             "NeverWrong / NoneIfNoOverlap / AlwaysFound (with and without reference) over read geometry. TLC enumerates the geometry "
             "space (kind x length x allele x every start/end offset incl. inside the variant x 8 CIGAR decorations); the driver "
             "materialises each as BAM + variants, calls the real ReadSetReader.read with and without reference and TLC judges every "
-            "(read, variant) pair.",
+            "(read, variant) pair. Seeded call histories keep ONE reader object alive over 5-8 read() calls with different variant lists "
+            "(short-lived lists, lists at a re-used address, in-place modified lists, with/without reference); every call is judged "
+            "by the same clauses and by OnlyRequested.",
     "note": "trusted: TLC, AlleleDetect.tla, wv/world.py (read builder; asserted against SeqWorld's invariants through clause WorldSane); "
             "reference contexts are sampled, structure is exhaustive",
     "technique": "TLA+ world model checked with TLC + TLC-enumerated geometries replayed into the real reader + TLC trace validation",
